@@ -117,6 +117,10 @@ impl<S: TextRenderer> Text<'_, S> {
         let mut position = self.position;
 
         self.text.split('\n').map(move |line| {
+            // Remove trailing carriage return to support both CR LF and LF line endings. This needs
+            // to be done before the line is measured to not affect the alignment.
+            let line = line.strip_suffix('\r').unwrap_or(line);
+
             let p = match self.text_style.alignment {
                 Alignment::Left => position,
                 Alignment::Right => {
@@ -139,13 +143,7 @@ impl<S: TextRenderer> Text<'_, S> {
 
             position.y += self.line_height();
 
-            // remove trailing '\r' for '\r\n' line endings
-            let len = line.len();
-            if len > 0 && line.as_bytes()[len - 1] == b'\r' {
-                (&line[0..len - 1], p)
-            } else {
-                (line, p)
-            }
+            (line, p)
         })
     }
 }
